@@ -9,6 +9,7 @@ what the file says now.
 -/
 import HdwModel.Model.Mnemonic
 import HdwModel.Spec.Bip39
+import HdwModel.Spec.Bip39English
 import HdwModel.Lemmas.Wordlist
 import HdwModel.Lemmas.Mnemonic
 
@@ -22,6 +23,12 @@ theorem table_facts :
     List.Pairwise (fun a b : List UInt8 => a < b) Hdw.Gen.wordBytes ∧
     (∀ w ∈ Hdw.Gen.wordBytes, w ≠ [] ∧ ∀ b ∈ w, 97 ≤ b.toNat ∧ b.toNat ≤ 122) := by
   exact ⟨Wordlist.wordBytes_length, Wordlist.wordBytes_sorted, Wordlist.wordBytes_alpha⟩
+
+set_option maxRecDepth 1000000 in
+/-- The embedded table is the BIP-39 English list (the committed reference copy, SHA-256
+2f5eed53…dbda), word for word.  Re-checked by the kernel against the regenerated table on every
+run: replacing, adding or removing a word in the repository's english.txt breaks this. -/
+theorem table_is_bip39 : Hdw.Gen.wordBytes = Hdw.Spec.Bip39.englishBytes := by decide +kernel
 
 /-- lookup and indexing are mutually inverse on the table -/
 theorem search_spec (w : Str) (i : Nat) :
